@@ -142,6 +142,11 @@ def check_entry(eng, obl, out, which):
         rm = [e[1][0] for e in evs if e[0] == "remove_attrs"]
         if "sym:item.attrs" not in rm:
             problems.append("the item's own attributes are not filtered")
+        # every filter uses the set of kinds the builder filled in (incl. derive_ex itself), not a copy with something switched off
+        kinds_args = set(e[1][1] for e in evs if e[0] == "remove_attrs" and len(e[1]) > 1)
+        core_kinds = [e[1][-1] for e in evs if e[0] == core]
+        if len(kinds_args) > 1 or any("without_derive_ex" in k for k in kinds_args) or (core_kinds and kinds_args and core_kinds[0] not in kinds_args):
+            problems.append("attributes are filtered with a different set of attribute kinds than the one the builder used: %s" % sorted(kinds_args)[:2])
         # every element the loops visited must have been filtered
         want = set()
         for m in re.finditer(r"len\((item\.[\w.\[\]]*)\) > (\d+)", pcs):
@@ -220,6 +225,23 @@ def check_lib_entries(eng, obl, out):
             ok = ok and bool(ext) and "sym:item" in ext[0][1][0] and "to_compile_error" in " ".join(ext[0][1][1:]) and "sym:item" in v and "build(" not in v
         else:
             ok = ok and "build(" in v
+    # the derive entry point emits generated tokens only: on failure just the error, never the input item again (the item already exists)
+    ex = eng.executor(opaque_local={"build_derive"})
+    ex.trace = _All()
+    fn = eng.find("derive_ex_derive")
+    res2 = ex.run(fn, eng.args_for(fn))
+    obl.note_paths("lib::derive_ex_derive", res2, ex)
+    obl.total += 1
+    good = len(res2) == 2
+    for r in res2:
+        v = ex.summ(mx.State(), r.value) if r.kind == "return" else ""
+        if "build_derive(" not in v or any(e[0].endswith("::extend") for e in r.events):
+            good = False
+    if good:
+        obl.discharged += 1
+    else:
+        out.violation("lib-derive_ex_derive|output", "-", "the derive entry point returns something else than the builder's tokens / the builder's error: %s" % (
+            [(r.kind, [e[0].split("::")[-1] for e in r.events]) for r in res2],))
     if ok:
         obl.discharged += 1
     else:
